@@ -58,7 +58,15 @@ macro_rules! cfg_impl {
             }
 
             /// all operations for one key and one (m1, m2, k, r1, r2) tuple
+            /// `ops_inner` under catch_unwind: a panic of an operation on ADMITTED operands is a failure of the property's conclusion
             pub fn ops(cx: &mut Ctx, tag: &str, p: &BigUint, q: &BigUint, m1: &BigUint, m2: &BigUint, k: &BigUint, r1: &BigUint, r2: &BigUint, light: bool) {
+                let r = catch_unwind(AssertUnwindSafe(|| ops_inner(&mut *cx, tag, p, q, m1, m2, k, r1, r2, light)));
+                if r.is_err() {
+                    let req = format!("pai enc {} {} {} {} {}", PBITS, bhex(p), bhex(q), bhex(m1), bhex(r1));
+                    cx.pred(&format!("{tag}:panic"), false, req, "panic".into(), "a result".into(), "paillier:panic-on-admitted-operands", "a Paillier operation panics on admitted operands (key, plaintext below N, randomiser, scalar below N)");
+                }
+            }
+            fn ops_inner(cx: &mut Ctx, tag: &str, p: &BigUint, q: &BigUint, m1: &BigUint, m2: &BigUint, k: &BigUint, r1: &BigUint, r2: &BigUint, light: bool) {
                 let sk: Sk = match catch_unwind(AssertUnwindSafe(|| Sk::from_pq(&up(p), &up(q)))) { Ok(s) => s, Err(_) => { cx.rep.notes.push(format!("from_pq panicked for p={} q={}", bhex(p), bhex(q))); return; } };
                 let pk = sk.public_key();
                 let n = p * q; let nn = &n * &n;
@@ -320,6 +328,15 @@ pub fn run(o: &Opts, drv: &mut Driver, rep: &mut Report, prop: &str) {
                     let (r1, r2) = (unit_below(&mut rng, &n), unit_below(&mut rng, &n));
                     $m::ops(&mut cx, &tag, &p, &q, &m, &(&n - &one), &m, &r1, &r2, true);
                 } }
+            }
+            // scalars (and plaintexts) at machine-word boundaries: 2^e - 1, 2^e, 2^e + 1 for e = 31, 32, 63, 64, 127, 128
+            {
+                let wb: Vec<BigUint> = [31u32, 32, 63, 64, 127, 128].iter().flat_map(|e| { let t = BigUint::from(1u8) << (*e as usize); vec![&t - 1u8, t.clone(), &t + 1u8] }).filter(|x| x < &n).collect();
+                for kk in wb {
+                    let (r1, r2) = (unit_below(&mut rng, &n), unit_below(&mut rng, &n));
+                    cx.rep.hist(&format!("{tag}:word-boundary scalar"));
+                    $m::ops(&mut cx, &tag, &p, &q, &below(&mut rng, &n), &kk, &kk, &r1, &r2, true);
+                }
             }
             for c in 0..$ncases {
                 let one = BigUint::from(1u8); let zero = BigUint::from(0u8);
